@@ -7,7 +7,7 @@ FUNCS = ['RangeProof::prove_with_rng (MIR regions: head checks, value guard loop
 
 def cases(tier):
     out = []
-    cfgs = [(8, 1, 1, 1), (4, 4, 4, 2), (2, 2, 4, 1), (64, 2, 2, 1)] if tier == 'quick' else [(8, 1, 1, 1), (4, 4, 4, 2), (2, 2, 4, 1), (64, 2, 2, 1), (1, 8, 8, 1), (16, 4, 4, 3), (32, 2, 2, 6), (8, 8, 8, 2)]
+    cfgs = [(8, 1, 1, 1), (4, 4, 4, 2), (2, 2, 4, 1), (64, 2, 2, 1), (2, 8, 8, 1)] if tier == 'quick' else [(8, 1, 1, 1), (4, 4, 4, 2), (2, 2, 4, 1), (64, 2, 2, 1), (1, 8, 8, 1), (16, 4, 4, 3), (32, 2, 2, 6), (8, 8, 8, 2)]
     for (n, m, cap, x) in cfgs:
         maxv = (1 << n) - 1
         def add(name, valid, **kw):
@@ -49,6 +49,10 @@ def cases(tier):
             # ... and the same with commitments that ARE reproduced by the short vectors: only the degree check can refuse it
             for nb in range(1, x):
                 add('witness of extension degree %d (commitments consistent) under a statement of degree %d' % (nb, x), False, blindings_count=nb)
+            # ragged witnesses: the short vectors DO reproduce their commitments, only the "equal blinding counts of the statement's degree" rule refuses them
+            if m >= 2:
+                for shape in ([x] * (m // 2) + [x - 1] * (m - m // 2), [x - 1] + [x] * (m - 1), [x] * (m - 1) + [x - 1], [x, x - 1] * (m // 2)):
+                    add('ragged witness with blinding counts %s (commitments consistent)' % shape, False, blindings_count=shape)
     return out
 
 
